@@ -251,6 +251,28 @@ func TestC02(t *testing.T) {
 		return
 	}
 	ev.Check(t, "c02_uniform", ev.N(320, 3200), c02Gen, c02Run)
+	// long passwords / full-size alphabets: every draw matters (local injectivity)
+	ev.Check(t, "c02_long_injective", ev.N(48, 480), func(t *rapid.T) supChar {
+		sp := gen.CharSpec(t, gen.CharOpts{MaxLen: 150, MinLen: 12, MaxReq: 2, NoHiBits: true})
+		return supChar{Spec: sp, Key: rapid.Uint64().Draw(t, "key")}
+	}, func(c supChar) error {
+		if rf, b := c.Spec.Feasibility(spg.MaxTrials, spg.MaxFailRate); rf || b {
+			return &ev.Skip{Why: "refused"}
+		}
+		r := toRecipe(c.Spec)
+		// context: an accepted first candidate (no retries in the base run)
+		ref, err := findRef(r, c.Key, 400)
+		if err != nil {
+			return err
+		}
+		n, err := localInjectivity(r.Generate, c.Key, ref.D, 0, 128, ref.Choices)
+		ev.Leaves(int64(n))
+		if err == nil {
+			ev.Class("long_injective_checked")
+			ev.NonTrivial(fmt.Sprintf("inj|%+v", c.Spec))
+		}
+		return err
+	})
 	// long passwords / full-size alphabets: support check (every character at every position)
 	ev.Check(t, "c02_long_support", ev.N(32, 320), func(t *rapid.T) supChar {
 		sp := gen.CharSpec(t, gen.CharOpts{MaxLen: 120, MinLen: 20, MaxReq: 2, NoHiBits: true})
